@@ -24,8 +24,12 @@ func drivers(quick bool) []conc.Driver {
 		{Chunk: 2, Concurrent: true, Cycles: []int{4}},
 		{Chunk: 2, Concurrent: true, Cycles: []int{5}},
 		{Chunk: 2, Concurrent: true, Cycles: []int{5}, After: 16}, // another, larger sorter lived and was cleaned up before
-		{Chunk: 1, Concurrent: true, Cycles: []int{2, 2}}, // the sorter is used again after Clear
+		{Chunk: 1, Concurrent: true, Cycles: []int{2, 2}},         // the sorter is used again after Clear
 		{Chunk: 2, Concurrent: true, Cycles: []int{3, 3}},
+		{Chunk: 2, Concurrent: true, Cycles: []int{1, 5}},                  // a use that stays in memory, then one that spills three runs
+		{Chunk: 1, Concurrent: true, Cycles: []int{0, 2}},                  // an empty use first
+		{Chunk: 2, Concurrent: true, Cycles: []int{1, 3}, AutoClear: true}, // the drain itself clears the sorter
+		{Chunk: 1, Concurrent: true, Cycles: []int{2, 2}, AutoClear: true},
 	}
 	if !quick {
 		scs = append(scs,
